@@ -349,9 +349,11 @@ class KernelPCovR(_BasePCA, LinearModel):
                 self.regressor_.X_fit_ = self.X_fit_
                 self.regressor_._check_n_features(self.X_fit_, reset=True)
         else:
-            Yhat = Y.copy()
+            Yhat = Y.copy().reshape(K.shape[0], -1)
             if W is None:
                 W = np.linalg.lstsq(K, Yhat, self.tol)[0]
+            else:
+                W = W.reshape(K.shape[0], -1)
 
         # Handle svd_solver
         self._fit_svd_solver = self.svd_solver
